@@ -216,6 +216,7 @@ class Pdu:
         self.overlap = False         # two described objects claimed one bit
         self.overlaps: list = []
         self.pad: set = set()        # padding bytes of BYTE-SIZE structures / field items
+        self.reserved: set = set()   # bytes covered by RESERVED parameters (described, but carry no value)
 
     def ensure(self, n: int) -> None:
         if len(self.buf) < n:
@@ -596,6 +597,7 @@ def enc_params(ctx: Ctx, params, values: dict, origin: int, eop: bool, what: str
                 raise RefReject("reserved parameter cannot be set")
             end = pos + (bit + p["bl"] + 7) // 8
             pdu.ensure(end)
+            pdu.reserved.update(range(pos, end))
             exp[p["name"]] = {"__reserved__": 0}
         elif pk == "matchreq":
             if val is not None:
@@ -727,4 +729,6 @@ def encode_message(msg, values: dict, request: Optional[bytes] = None) -> Encode
             if v not in vals:
                 raise RefReject("NRC-CONST: value on the wire is not one of the coded values")
             exp[name] = v
-    return Encoded(bytes(ctx.pdu.buf), bytes(ctx.pdu.used), ctx.pdu.overlap, exp, end, sorted(ctx.assumptions))
+    out = Encoded(bytes(ctx.pdu.buf), bytes(ctx.pdu.used), ctx.pdu.overlap, exp, end, sorted(ctx.assumptions))
+    out.reserved = sorted(ctx.pdu.reserved)
+    return out
